@@ -239,6 +239,16 @@ func (p *Prog) Global(rel, name string) *ssa.Global {
 	return g
 }
 
+// GlobalOpt returns the package-level variable or nil.
+func (p *Prog) GlobalOpt(rel, name string) *ssa.Global {
+	sp := p.ssaPkg[full(rel)]
+	if sp == nil {
+		return nil
+	}
+	g, _ := sp.Members[name].(*ssa.Global)
+	return g
+}
+
 // Anons returns the anonymous functions declared (transitively) inside fn, in source order.
 func Anons(fn *ssa.Function) []*ssa.Function {
 	var out []*ssa.Function
